@@ -23,7 +23,7 @@
        refinement C09_model_refines_spec).  Checked on every run by
        comparing complete model traces with the implementation and judging the implementation traces with (B). *)
 From PS Require Import Lib.Base Generated.Consts Model.SdTypes Model.Config Model.Session Model.StackTypes
-  Model.Stack Model.StackIO Spec.TraceSpec Spec.StoreSpec Proofs.StoreSpecProofs Proofs.TimedStoreProofs Proofs.KeyEquiv Proofs.WorldInv Proofs.WorldInv2 Proofs.WorldTime Proofs.WorldDone.
+  Model.Stack Model.StackIO Spec.TraceSpec Spec.StoreSpec Proofs.StoreSpecProofs Proofs.TimedStoreProofs Proofs.KeyEquiv Proofs.WorldInv Proofs.WorldInv2 Proofs.WorldTime Proofs.WorldDone Proofs.WorldExpiry.
 
 Section A.
   Context {K : Type} (keqb : K -> K -> bool) (keqb_eq : forall a b, keqb a b = true <-> a = b).
@@ -126,6 +126,38 @@ Theorem C09_completed_run_is_quiescent : forall fuel events t_end rv w w',
   run fuel events t_end rv w = (w', true) -> ready w' = [] /\ live_after t_end w'.
 Proof. exact run_complete. Qed.
 
+(* "on time, never early; a refresh replaces the deadline; the infinite TTL never expires", over WHOLE RUNS of the full stack
+   model, for every scenario and schedule (Proofs/WorldExpiry.v; the ghost history records every (re)storing of an entry
+   with its TTL and every removal by an expiry timer): every expiry in the history happened exactly TTL seconds after the
+   LATEST refresh of that entry, which did not carry the infinite TTL; and every stored entry with a timer was last
+   refreshed with a finite TTL and its timer is due exactly that TTL after that refresh. *)
+Theorem C09_expiries_on_time_on_the_stack : forall s sc, d_scenario s = Some sc ->
+  let w := fst (run_scenario sc) in
+  expiry_ok (glog w) = true
+  /\ forall st a k tid, In (k, Some tid) (inner a (get_store st w)) ->
+       exists tr ttl, last_refresh st a k (glog w) = Some (tr, ttl) /\ (ttl =? TTL_FOREVER) = false
+         /\ forall when, In (when, tid, HExpired st a k) (timers w) -> when = tr + ttl * usec_per_sec.
+Proof. exact reachable_expiries_on_time. Qed.
+(* the step that matters: the expiry callback the loop runs for a live timer *)
+Theorem C09_expiry_callback_is_on_time : forall w tid st a k r, GG [] w -> Rk w ->
+  ready w = (Some tid, HExpired st a k) :: r -> memN tid (cancelled w) = false ->
+  Rk (store_expired st a k (set_ready r w)).
+Proof. exact R_expired_popped. Qed.
+Theorem C09_refresh_records_the_new_deadline : forall X st ttl a k w1, GP X w1 -> Rk w1 -> has_store st w1 = true ->
+  Rk (fst (refresh_tail st ttl a k w1)).
+Proof. exact R_refresh_tail. Qed.
+(* expiry_ok distinguishes: on time after the latest refresh / at the old deadline / an infinite TTL / twice *)
+Example C09_expiry_ok_example :
+  let k := KService (mkService 1 1 1 0 [] [] []) in
+  expiry_ok [(3 * usec_per_sec + 5, GExpire SFound 7 k); (5, GRefresh SFound 7 k 3); (1, GRefresh SFound 7 k 1)] = true
+  /\ expiry_ok [(1 * usec_per_sec + 1, GExpire SFound 7 k); (5, GRefresh SFound 7 k 3); (1, GRefresh SFound 7 k 1)] = false
+  /\ expiry_ok [(9, GExpire SFound 7 k); (5, GRefresh SFound 7 k TTL_FOREVER)] = false
+  /\ expiry_ok [(2 * usec_per_sec + 5, GExpire SFound 7 k); (usec_per_sec + 5, GExpire SFound 7 k); (5, GRefresh SFound 7 k 1)] = false.
+Proof. exact expiry_ok_example. Qed.
+
+Print Assumptions C09_expiries_on_time_on_the_stack.
+Print Assumptions C09_expiry_callback_is_on_time.
+Print Assumptions C09_refresh_records_the_new_deadline.
 Print Assumptions C09_completed_run_leaves_nothing_overdue.
 Print Assumptions C09_completed_run_is_quiescent.
 Print Assumptions C09_timer_invariant.
